@@ -8,6 +8,7 @@ import (
 	"encoding/binary"
 	"fmt"
 	"os"
+	"sync"
 )
 
 func c04Cat(parts ...[]byte) []byte {
@@ -31,7 +32,18 @@ type c04Scenario struct {
 	data []byte
 }
 
+var c04ScenCache struct {
+	once sync.Once
+	list []c04Scenario
+}
+
+// c04Scenarios: the list is built once per process (a worker resolves every `scen` line against it)
 func c04Scenarios() []c04Scenario {
+	c04ScenCache.once.Do(func() { c04ScenCache.list = c04BuildScenarios() })
+	return c04ScenCache.list
+}
+
+func c04BuildScenarios() []c04Scenario {
 	var out []c04Scenario
 	add := func(name string, d []byte) { out = append(out, c04Scenario{name, d}) }
 	readRepo := func(rel string) []byte {
@@ -220,5 +232,8 @@ func c04Scenarios() []c04Scenario {
 			}
 		}
 	}
+	// count x element size: every table box and the senc box in every traf context, with counts whose 32-bit product
+	// with the element size wraps (c04_count.go). Appended last: the indices of the scenarios above stay what they were.
+	c04CountScenarios(add, readRepo)
 	return out
 }
